@@ -6,6 +6,13 @@ LEVEL_TEXT = ("C02: every API call of a conformant program, from any reachable b
 
 def obligations(tier, sc):
     obs = step_obligations(2, tier, [0, 1, 2, 3])
+    # isolation of concurrent threads (every stream a multi-threaded conformant program leaves is valid only if
+    # threads cannot corrupt each other's streams): C11's thread-modular obligations for the stream-touching calls
+    from checks import C11 as _c11
+    for ob in _c11.obligations(tier, sc):
+        if ob.name in ("tm_ev_emit", "tm_flush", "tm_thread_free", "tm_thread_free_tmpdir"):
+            ob.name = "isolation_" + ob.name
+            obs.append(ob)
     # metadata completeness: the full protocol run of C09's harness, event free, both modes
     from checks.fs_common import gen_parson, FUNCS
     gen_parson(sc)
